@@ -150,12 +150,12 @@ func newObserver() *dObserver {
 
 func (o *dObserver) expire(now int64) {
 	for k, a := range o.acks {
-		if now >= a.expiry {
+		if now > a.expiry { // a lease is valid up to and including its expiry instant (the server tests expiry.Before(now))
 			delete(o.acks, k)
 		}
 	}
 	for k, a := range o.lease {
-		if now >= a.expiry {
+		if now > a.expiry { // a lease is valid up to and including its expiry instant (the server tests expiry.Before(now))
 			delete(o.lease, k)
 		}
 	}
@@ -747,7 +747,7 @@ func runDHCP(alpha []dEvent, hist []int, o dhcpOpts) *dhcpResult {
 		}
 		sort.Slice(res.acked, func(i, j int) bool { return res.acked[i].id < res.acked[j].id })
 		for k := 0; k < len(dClients); k++ {
-			if a, ok := obs.maybe[k]; ok && res.endTime < a.expiry {
+			if a, ok := obs.maybe[k]; ok && res.endTime <= a.expiry {
 				if _, held := obs.lease[k]; held {
 					continue
 				}
